@@ -617,7 +617,7 @@ def build_program(rng: random.Random, nested_import_p: float = 0.07) -> Prog:
                         n_shared += 1
         if n_shared >= 2:
             feats.add("same-nested-name-in-different-parents")
-    # message names ending in digits (not the KF-c-helper-name collision class: checked below)
+    # message names ending in digits
     renamed: List[Tuple[G.MsgDef, str]] = []
     if r.random() < 0.4:
         for s in order:
@@ -626,12 +626,32 @@ def build_program(rng: random.Random, nested_import_p: float = 0.07) -> Prog:
                     renamed.append((m, m.name))
                     m.name = m.name + r.choice(["1", "2", "7", "12", "0", "99"])
         helper = [G.c_name(m) + str(f.num) for s in order for m in s.messages() for f in m.fields if isinstance(f.type, G.TArray)]
-        if len(set(helper)) != len(helper):
-            for m, old in renamed:
-                m.name = old
-            renamed = []
+        if len(set(helper)) != len(helper):  # A1 field 2 / A field 12: helper names must still differ (fixed 06fc623)
+            feats.add("msg-name-digits-ambiguous-with-field-number")
         if renamed:
             feats.add("msg-name-digits")
+    # field names that read like "<nested message>_<its field>": every helper generated for an array field must still be unique
+    # (<Outer> + inner_fa_3  vs  <Outer><Inner> + fa_3)
+    if r.random() < 0.5:
+        for s in order:
+            for m in s.messages():
+                for q in [x for x in m.nested if isinstance(x, G.MsgDef)]:
+                    arrs = [f for f in q.fields if isinstance(f.type, G.TArray)]
+                    if not arrs or r.random() < 0.4:
+                        continue
+                    f = r.choice(arrs)
+                    name = f"{q.name.lower()}_{f.name}"
+                    free = [k for k in range(1, 256) if k not in {x.num for x in m.fields}]
+                    if not free or any(x.name == name for x in m.fields) or G.msg_nbits(m) + 16 > go.max_bits:
+                        continue
+                    m.fields.append(G.Field(name, r.choice(free[:3] + free[-2:]), G.TArray(G.TByte(), 2, False)))
+                    feats.add("field-named-like-nested-message-plus-field")
+    # an imported file whose base name (= its proto name) has capital letters: the generated file names and the names that
+    # #include / import statements use must be spelled alike
+    if len(order) > 1 and r.random() < 0.3:
+        s = r.choice([x for x in order if x is not main])
+        s.proto = s.proto[0].upper() + s.proto[1:-1] + s.proto[-1].upper()
+        feats.add("imported-file-name-with-capitals")
     # options
     prefixes = r.sample(PREFIXES, len(order))
     for s, p in zip(order, prefixes):
@@ -1471,7 +1491,8 @@ KF_TEXT = {
     "KF-go-unused-import": "a Go import whose only use in the schema is a constant (or nothing) is never mentioned in the Go file (Go rejects unused imports)",
     "KF-go-transitive-qualifier": "Go: an element type of a THIRD file reached through an imported alias (top -> mid.Kinds = bs.Kind[2]) is cast in BpSetByte "
                                   "under the import name it has inside the intermediate file (`bs.Kind(b)`), which the top file never imports",
-    "KF-c-helper-name": "message A1 with array field 2 and message A with array field 12 both yield the C helper BpXXXProcessArrayA12 (gcc: redefinition)",
+    "KF-c-flat-name": "nested message Outer.Inner and top-level message OuterInner both become `struct OuterInner` in C (gcc: redefinition); "
+                      "Python keeps them apart (Outer_Inner / OuterInner)",
     "KF-include-name": "imported file whose base name differs from its proto name: #include / import use the proto name, the generated file uses the base name",
     "KF-empty-struct": "empty message: sizeof 0 in C (GNU), 1 in C++ - layout differs between the two languages",
     "KF-empty-enum": "enum without members: IndexError in the Python renderer when used as a field; `class E(IntEnum):` with empty body otherwise",
@@ -1514,10 +1535,9 @@ def witnesses(run: common.Run, env: Env) -> Dict[str, bool]:
             {"top.bitproto": {"mid": "mid.bitproto"}, "mid.bitproto": {"bs": "base.bitproto"}}),
        lambda fs: any(f["kind"] == "go-undeclared" and f.get("name") == "bs" and f.get("src") == "top.bitproto" for f in fs)
        and not any(f["cfg"] in ("c", "py") for f in fs))
-    go("KF-c-helper-name", wjob({"helper.bitproto": "proto helper\n\nmessage A1 {\n    byte[2] x = 2\n}\n\nmessage A {\n    byte[2] y = 12\n}\n"},
-                                ["helper.bitproto"], "helper.bitproto", ["c"]),
-       lambda fs: any(f["kind"] == "gcc-error" and "redefinition" in f["detail"] and "ArrayA12" in f["detail"] for f in fs)
-       and any(f["kind"] == "c-duplicate" and "ArrayA12" in f.get("name", "") for f in fs))
+    go("KF-c-flat-name", wjob({"flat.bitproto": "proto flat\n\nmessage Outer {\n    message Inner {\n        bool a = 1\n    }\n    Inner i = 1\n}\n\n"
+                                                 "message OuterInner {\n    bool b = 1\n}\n"}, ["flat.bitproto"], "flat.bitproto", ["c"]),
+       lambda fs: any(f["kind"] == "gcc-error" and "redefinition of" in f["detail"] and "struct OuterInner" in f["detail"] for f in fs))
     go("KF-go-unused-import", wjob({"shared.bitproto": "proto shared\n\nconst LEN = 4\n",
                                     "top.bitproto": 'proto top\n\nimport "shared.bitproto"\n\nmessage M {\n    byte[shared.LEN] b = 1\n}\n'},
                                    ["shared.bitproto", "top.bitproto"], "top.bitproto", ["go"], {"top.bitproto": {"shared": "shared.bitproto"}}),
@@ -1548,6 +1568,36 @@ def witnesses(run: common.Run, env: Env) -> Dict[str, bool]:
     if notes:
         run.notes["known_finding_witness_notes"] = notes
     return confirmed
+
+
+# ===================================================================== witnesses of repaired defects (must stay repaired)
+FIXED_CASES = [
+    ("fixed-c-helper-name (06fc623)",
+     {"helper.bitproto": "proto helper\n\nmessage A1 {\n    byte[2] x = 2\n    uint3[3] z = 3\n}\n\nmessage A {\n    byte[2] y = 12\n    uint3[3] w = 13\n}\n"
+                         "\nmessage B {\n    message C1 {\n        bool[2] p = 2\n    }\n    message C {\n        bool[2] q = 12\n    }\n    C1 a = 1\n    C b = 2\n}\n"},
+     ["c", "cO", "py", "go"]),
+]
+
+
+def fixed_cases(run: common.Run, env: Env) -> None:
+    """programs that used to be rejected by a toolchain and were repaired in /repo: any finding on them is a violation"""
+    for title, texts, configs in FIXED_CASES:
+        order = list(texts)
+        job = wjob(texts, order, order[-1], configs)
+        res = run_job(env, job, env.sc.path("fx-" + title.split()[0]))
+        run.count("fixed-case")
+        if not res["accepted"]:
+            run.violation({"kind": "impl-vs-spec", "input": {"files": texts}, "observed_impl": "rejected: " + str(res.get("reject"))[-300:],
+                           "expected_by_spec": "a valid schema is accepted", "case": title}, suffix=title)
+            continue
+        for cfg in res["configs_done"]:
+            run.evaluated()
+        for f in res["findings"]:
+            run.count("violation:" + f["kind"])
+            run.violation({"kind": "impl-vs-spec", "case": title, "input": {"files": texts, "config": f.get("cfg")},
+                           "finding": {k: str(v)[:600] for k, v in f.items()},
+                           "observed_impl": f.get("detail"), "expected_by_spec": "the generated code is accepted by the toolchain (this case was repaired by the named commit)"},
+                          suffix=f"{title} {f.get('cfg')} {f['kind']}")
 
 
 # ===================================================================== entry
@@ -1602,6 +1652,7 @@ def check(run: common.Run, drv: Any, rng: random.Random, tier: str) -> None:
             run.notes["runtime_build_error"] = env.rt_error
         try:
             confirmed = witnesses(run, env)
+            fixed_cases(run, env)
             # references to types nested in a message of an imported file: rare while KF-nested-import is open (a failing import
             # masks the other Python checks of the program), frequent once its witness no longer fails
             nested_p = 0.07 if confirmed.get("KF-nested-import") else 0.5
